@@ -140,7 +140,8 @@ class Harness(object):
             self.dh.set(a, bid, ask)
         init = cfg['initial_funds']
         self.b = q.SimulatedBroker(self.t, q.SimulatedExchange(self.t), self.dh, initial_funds=init,
-                                   fee_model=kit.fee_model(cfg['fee']))
+                                   fee_model=kit.fee_model(cfg['fee']), base_currency=cfg.get('currency', 'USD'))
+
         self.master = F(init)
         self.cash, self.pend, self.net, self.last, self.hist = {}, {}, {}, {}, {}
         self.mag = {'master': abs(F(init))}
@@ -149,6 +150,8 @@ class Harness(object):
         self.filled = {}         # order id -> count
         self.seen_kinds = set()
         self.flags = set()
+        if cfg.get('currency', 'USD') != 'USD':
+            self.flags.add('non_default_base_currency')
         self._closed = {}
         self._applied = 0
         self._invariants(['init'])
@@ -649,6 +652,14 @@ class Harness(object):
         real_master = b.get_account_cash_balance(b.base_currency)
         if abs(real_master - float(self.master)) > self._tol('master', self.master):
             raise Violation('after %s: master cash %r, ledger says %r' % (op, real_master, float(self.master)))
+        for ccy, bal in b.get_account_cash_balance().items():
+            if ccy != b.base_currency and bal != 0.0:
+                raise Violation('after %s: the %s master balance is %r although the account is denominated in %s' % (
+                    op, ccy, bal, b.base_currency))
+        for pid in self.pids:
+            if b.portfolios[pid].currency != b.base_currency:
+                raise Violation('portfolio %s is denominated in %s, the account in %s' % (
+                    pid, b.portfolios[pid].currency, b.base_currency))
         for pid in self.pids:
             c = b.get_portfolio_cash_balance(pid)
             if abs(c - float(self.cash[pid])) > self._tol(pid, self.cash[pid]):
@@ -812,6 +823,7 @@ def config_st(draw, fees=True):
         'quotes': {a: draw(quote_st()) for a in assets},
         'initial_funds': draw(st.one_of(st.floats(1e3, 1e6).map(lambda x: _r(x, 7)), st.sampled_from([0.0, 1.0, 1e6, 0.5]))),
         'fee': fee,
+        'currency': draw(st.sampled_from(['USD', 'USD', 'GBP', 'EUR'])),
     }
 
 
